@@ -23,7 +23,13 @@ def run_property(prop: str, tier: str, repo: str, overlay=None, seed: int = 0, k
     prog = Program(repo, overlay=overlay)
     ctx = Context(prog, prop, tier, seed)
     lint.no_reflection(ctx)
-    mod.run(ctx)
+    from . import symex
+    symex.INLINER = symex.Inliner(ctx)
+    try:
+        mod.run(ctx)
+    finally:
+        ctx.analysed['helper_calls_inlined'] = symex.INLINER.count
+        symex.INLINER = None
     ctx.apply_known_findings(known_path)
     ctx.analysed.setdefault('modules', len(prog.modules))
     ctx.analysed.setdefault('functions', len(prog.functions))
